@@ -146,6 +146,10 @@ class C10(Prop):
                 deps.append({"name": rnd.choice(names), "ver": ver, "pl": rnd.choice("pqr")})
             gens.append({"kind": "resolve", "tree": place(deps, rnd), "alias": rnd.random() < 0.4, "doc": rnd.random() < 0.4,
                          "display": rnd.random() < 0.25})
+        for _ in range(200 if tier == "quick" else 4000):
+            deps = [{"name": rnd.choice("ab"), "ver": rnd.choice([[1, 10], [1, 10, 0], [1, 9], [2]]), "pl": rnd.choice("pq")}
+                    for _ in range(rnd.randint(2, 6))]
+            gens.append({"kind": "remove", "deps": deps, "j": rnd.randrange(len(deps)), "how": rnd.randrange(2)})
         return gens
 
     def execute(self, g):
@@ -157,7 +161,7 @@ class C10(Prop):
             # one - being the caller's own <body>): what is reported does not depend on where the objects sit
             if not g.get("doc", True):
                 # (the document views are taken for every third case: they triple the cost of a case)
-                return {"k": "resolve", "tree": g["tree"], "got": proj(got), "gotDoc": proj(got), "gotDocGrown": proj(got),
+                return {"k": "resolve", "tree": g["tree"], "got": proj(got), "gotDoc": proj(got), "gotDocGrown": proj(got), "fragSame": True,
                         "gotNoDedup": proj(t.get_dependencies(dedup=False)),
                         "gotTagifiedNoDedup": proj(t.tagify().get_dependencies(dedup=False)),
                         "gotRender": proj(t.render()["dependencies"]),
@@ -177,10 +181,42 @@ class C10(Prop):
             if kids_all[cut:]:
                 root.append(*kids_all[cut:])
             got_grown = doc2.render()["dependencies"]
-            return {"k": "resolve", "tree": g["tree"], "got": proj(got), "gotDoc": proj(got_doc), "gotDocGrown": proj(got_grown),
+            # a document built from a list: what the document gets afterwards is not in the list (and the other way round)
+            frag = H.TagList(*[build(c, H, None) for c in g["tree"]["c"]])
+            frag_before = proj(frag.get_dependencies(dedup=False))
+            doc3 = H.HTMLDocument(frag)
+            doc3.append(H.HTMLDependency("only-in-doc", "9.9"), H.tags.div(H.HTMLDependency("n0", "99.0")))
+            frag_same = proj(frag.get_dependencies(dedup=False)) == frag_before
+            frag.append(H.HTMLDependency("only-in-list", "9.9"))
+            frag_same = frag_same and "only-in-list" not in [d.name for d in doc3.render()["dependencies"]]
+            return {"k": "resolve", "tree": g["tree"], "got": proj(got), "gotDoc": proj(got_doc), "gotDocGrown": proj(got_grown), "fragSame": bool(frag_same),
                     "gotNoDedup": proj(t.get_dependencies(dedup=False)),
                     "gotTagifiedNoDedup": proj(t.tagify().get_dependencies(dedup=False)),
                     "gotRender": proj(t.render()["dependencies"]),
+                    "gotTwice": proj(H.TagList(*got).get_dependencies()), "gen": g}
+        if g["kind"] == "remove":
+            # a flat list of dependencies from which ONE object is taken out again (list.remove / del by index of that
+            # object): exactly that object is gone, also when another one has the same name and an equal version
+            objs = [build({"k": "d", "c": [], "d": d_}, H) for d_ in g["deps"]]
+            tl = H.TagList("x", *objs)
+            victim = objs[g["j"]]
+            def veq(x, y):
+                n_ = max(len(x), len(y))
+                return list(x) + [0] * (n_ - len(x)) == list(y) + [0] * (n_ - len(y))
+            twins = [d_ for i_, d_ in enumerate(g["deps"]) if i_ != g["j"] and d_["name"] == g["deps"][g["j"]]["name"]
+                     and d_["pl"] == g["deps"][g["j"]]["pl"] and veq(d_["ver"], g["deps"][g["j"]]["ver"])]
+            if g["how"] == 0 and not twins:
+                # (remove() goes by value: with a value-equal twin in the list it may take that one - by index then)
+                tl.remove(victim)
+            else:
+                del tl[[i_ for i_, e_ in enumerate(tl) if e_ is victim][0]]
+            rest = [d_ for i_, d_ in enumerate(g["deps"]) if i_ != g["j"]]
+            t_abs = {"k": "t", "c": [{"k": "d", "c": [], "d": d_} for d_ in rest], "d": NODEP}
+            got = tl.get_dependencies()
+            return {"k": "resolve", "tree": t_abs, "got": proj(got), "gotDoc": proj(got), "gotDocGrown": proj(got), "fragSame": True,
+                    "gotNoDedup": proj(tl.get_dependencies(dedup=False)),
+                    "gotTagifiedNoDedup": proj(tl.tagify().get_dependencies(dedup=False)),
+                    "gotRender": proj(tl.render()["dependencies"]),
                     "gotTwice": proj(H.TagList(*got).get_dependencies()), "gen": g}
         d = g["def"]
         kw = dict(source=SOURCES[d["source"]], script=items(d["script"], "src"),
